@@ -126,6 +126,13 @@ func (s *SimOS) log(method string, failable bool, args ...any) (idx int, err err
 	return c.Seq, err
 }
 
+// SetStdin replaces what the simulated standard input holds.
+func (s *SimOS) SetStdin(data string) {
+	s.mu.Lock()
+	s.stdin = &stdFile{os: s, name: "stdin", data: []byte(data)}
+	s.mu.Unlock()
+}
+
 // Prepare runs host-side set-up on the simulated machine: no faults are
 // injected into it, and the call log and fault counters start afresh afterwards.
 func (s *SimOS) Prepare(fn func()) {
